@@ -96,9 +96,15 @@ def r03a(ctx):
     # leaf guards inside extract_pq_filters
     pts = [p for p in flow.walk(ex) if isinstance(p.stmt, ast.Assign) and any(isinstance(t, ast.Name) and t.id == "_filters" for t in p.stmt.targets)]
     leaf_sites = [p for p in pts if isinstance(p.stmt.value, ast.Tuple) and len(p.stmt.value.elts) == 3]
-    comb_sites = [p for p in pts if isinstance(p.stmt.value, ast.Call)]
+    comb_sites = [p for p in pts if p not in leaf_sites and not (isinstance(p.stmt.value, ast.Constant) and p.stmt.value.value is None)]
     ctx.floor("leaf translation sites", len(leaf_sites), 1)
     ctx.floor("combiner translation sites", len(comb_sites), 2)
+    lr = []  # names holding the translated sides
+    for d in flow.Defs(ex).all:
+        if d.value is not None and "extract_pq_filters(" in ast.unparse(d.value) and d.kind == "assign":
+            lr.append(d.name)
+    if len(set(lr)) < 2:
+        raise AnalysisError("anchor changed: translated left/right sides in _DNF.extract_pq_filters")
     defs = flow.Defs(ex)
     for i, p in enumerate(leaf_sites):
         facts = [(unparse(t), pol) for t, pol in flow.facts(p)]
@@ -127,7 +133,7 @@ def r03a(ctx):
             ctx.ok(cid, dnf.module.loc(p.stmt), "guards: " + ", ".join(need))
     for i, p in enumerate(comb_sites):
         facts = [(unparse(t), pol) for t, pol in flow.facts(p)]
-        both = any(t == "left" and pol for t, pol in facts) and any(t == "right" and pol for t, pol in facts)
+        both = all(any(t == nm and pol for t, pol in facts) for nm in set(lr))
         cid = f"io.parquet._DNF.extract_pq_filters:combine{i}"
         if both:
             ctx.ok(cid, dnf.module.loc(p.stmt), "both sides translated")
